@@ -397,7 +397,7 @@ def st_sdmx_case(draw):
 
 
 @subcheck("C02", "sdmx_fast_vs_slow_and_definition", st_sdmx_case, quick=64, thorough=800, tolerances=TOL, shrink=False,
-          rule="G-mol x PSD dm (restricted or both spin channels) x every SDMX settings class: (1) the fast generator "
+          rule="G-mol x PSD dm (restricted or both spin channels) x every SDMX settings class: (0) restricted cases: get_feat_and_occd of the slow generator returns the features of get_features (1e-10) and occupation derivatives equal to the central difference along dm + t c c^T (exact for a quadratic functional, 1e-9); (1) the fast generator "
                "(pyscf.sdmx) and the reference-grade slow generator (pyscf.sdmx_slow) agree at drawn points to 1e-6 of the "
                "feature maximum; (2) for every settings class whose features the documentation defines (SDMX, G, 1, G1, and Full with the "
                "single ratio 1) the features H_j^0, H_j^0d, H_j^1, H_j^1d equal within 4e-2 -- where two successive refinements of the auxiliary exponent ladder (smallest exponent /16 and /64) agree within a quarter of that tolerance, otherwise the comparison is counted unresolved -- a "
@@ -432,6 +432,30 @@ def sdmx_fast_vs_slow_and_definition(case, ctx):
             sc = float(np.max(np.abs(fs[:, k]))) + 1e-300
             ctx.close(f[:, k], fs[:, k], ("fast_vs_slow", case["sdmx"]["cls"], "l1" if k >= gen.plan.num_l0_feat else "l0"),
                       rtol=1e-6, scale=sc, feature=k)
+    if slow_cls is not None and nspin == 1 and hasattr(gs, "get_feat_and_occd"):
+        # the occupation-derivative entry point (get_descriptors with orbitals): same features, and derivatives with
+        # respect to the occupation of an orbital c, i.e. along dm -> dm + t c c^T.  The features are quadratic in the
+        # density matrix, so a central difference in t is exact up to rounding.
+        orb = rng_from(case["seed"] + 3).normal(size=(2, mol.nao)) / np.sqrt(mol.nao)
+        val, occd = gs.get_feat_and_occd(dms[0], orb, mol, pts)
+        val, occd = np.asarray(val), np.asarray(occd)
+        ctx.check(val.shape == fs[0].shape and occd.shape == (2,) + fs[0].shape, ("feat_and_occd", "shape"), val=list(val.shape), occd=list(occd.shape))
+        for k in range(settings.nfeat):
+            lab = "l1" if k >= gen.plan.num_l0_feat else "l0"
+            sc = float(np.max(np.abs(fs[0, k]))) + 1e-300
+            ctx.close(val[k], fs[0, k], ("feat_and_occd", "value_vs_get_features", case["sdmx"]["cls"], lab), rtol=1e-10, scale=sc, feature=k)
+        t = 1e-2
+        for io in range(2):
+            cc = np.outer(orb[io], orb[io])
+            fp = np.array(gs.get_features(dms[0] + t * cc, mol, pts), copy=True).reshape(settings.nfeat, -1)
+            fm = np.array(gs.get_features(dms[0] - t * cc, mol, pts), copy=True).reshape(settings.nfeat, -1)
+            dfd = (fp - fm) / (2 * t)
+            for k in range(settings.nfeat):
+                lab = "l1" if k >= gen.plan.num_l0_feat else "l0"
+                sc = float(np.max(np.abs(dfd[k]))) + float(np.max(np.abs(fs[0, k]))) + 1e-300
+                ctx.close(occd[io, k], dfd[k], ("feat_and_occd", "occupation_derivative", case["sdmx"]["cls"], lab), rtol=1e-9, scale=sc,
+                          feature=k, orbital=io)
+        ctx.event("feat_and_occd_checked")
     terms = sdmx_terms(case["sdmx"])
     if terms is not None:
         # the definition is compared with a REFINED auxiliary expansion (smallest exponent / 16, same ratio 1.8; a
